@@ -15,6 +15,7 @@ CONSTANTS
   ByzMax = TRUE
   MaxNodes = 4
   MaxVotes = 4
+  Monotone = FALSE
   RootVotes = FALSE
   Variant = "asis"
 INVARIANT FinalitySafety
